@@ -11,16 +11,20 @@ variable {F P : Type} [Scalar F] [Scalar P] [Cvt P F] [Trig F] [Trig P]
 
 def leStart (a b : HitObject F P) : Bool := decide (totalKey a.startTime ≤ totalKey b.startTime)
 
+omit [Cvt P F] [Trig F] [Trig P] in
 theorem leStart_trans (a b c : HitObject F P) : leStart a b = true → leStart b c = true → leStart a c = true := by
   unfold leStart; simp only [decide_eq_true_eq]; omega
 
+omit [Cvt P F] [Trig F] [Trig P] in
 theorem leStart_total (a b : HitObject F P) : (leStart a b || leStart b a) = true := by
   unfold leStart; simp only [Bool.or_eq_true, decide_eq_true_eq]; omega
 
+omit [Cvt P F] [Trig F] [Trig P] in
 /-- **sorted_stable**: the finaliser's sort yields a permutation of the parsed objects … -/
 theorem sorted_perm (hs : List (HitObject F P)) : (sortByStartTime hs).Perm hs :=
   List.mergeSort_perm hs _
 
+omit [Cvt P F] [Trig F] [Trig P] in
 /-- … in non-decreasing start-time order … -/
 theorem sorted_nondecreasing (hs : List (HitObject F P)) :
     (sortByStartTime hs).Pairwise (fun a b => totalKey a.startTime ≤ totalKey b.startTime) := by
@@ -29,6 +33,8 @@ theorem sorted_nondecreasing (hs : List (HitObject F P)) :
   refine List.Pairwise.imp ?_ this
   intro a b h; simpa [leStart] using h
 
+omit [Cvt P F] [Trig F] [Trig P] in
+omit [Cvt P F] [Trig F] [Trig P] in
 /-- … and stable: two objects with `a` not after `b` in time that appear in file order `a … b`
 appear in that order in the result (in particular equal-time objects keep file order). -/
 theorem sorted_stable (hs : List (HitObject F P)) (a b : HitObject F P)
@@ -45,6 +51,7 @@ theorem postProcessBreaks_length (breaks : List (BreakPeriod F)) (hs : List (Hit
   | nil => rfl
   | cons h rest ih => simp [postProcessBreaks, ih]
 
+omit [Scalar F] [Scalar P] [Cvt P F] [Trig F] [Trig P] in
 /-- break processing changes nothing but `new_combo` flags, and only ever sets them. -/
 theorem orNewCombo_only_sets (k : HitObjectKind F P) (force : Bool) :
     (match k, k.orNewCombo force with
@@ -55,6 +62,7 @@ theorem orNewCombo_only_sets (k : HitObjectKind F P) (force : Bool) :
      | _, _ => False) := by
   cases k <;> simp [HitObjectKind.orNewCombo]
 
+omit [Trig F] in
 /-- the pointer walk of `post_process_breaks`: it skips exactly the breaks (from `cur` on, in list
 order) that end before the object starts, and forces a new combo iff it skipped at least one. -/
 theorem skipBreaks_spec (breaks : List (BreakPeriod F)) (t : F) (fuel cur : Nat) (force : Bool) :
@@ -89,6 +97,7 @@ theorem skipBreaks_spec (breaks : List (BreakPeriod F)) (t : F) (fuel cur : Nat)
         rw [hs]
         exact ⟨Nat.le_refl _, by simp, fun i h1 h2 => absurd h2 (by simp; omega)⟩
 
+omit [Trig F] in
 /-- with enough fuel the walk stops at a break that does not end before the object (or at the end). -/
 theorem skipBreaks_stops (breaks : List (BreakPeriod F)) (t : F) (fuel cur : Nat) (force : Bool)
     (hf : breaks.length < cur + fuel) :
@@ -202,6 +211,7 @@ theorem finalizeObjects_times (mode : GameMode) (sm : F) (cp : ControlPoints F) 
 
 /-! ### sample defaults (`SamplePoint::apply`) -/
 
+omit [Trig F] in
 /-- **sample_defaults** for named samples: volume 0, unspecified bank and custom index 0 are taken
 from the sample point; specified values are kept. -/
 theorem apply_default_sample (sp : SamplePoint F) (s : HitSampleInfo) (n : HitSampleDefaultName)
@@ -217,6 +227,7 @@ theorem apply_default_sample (sp : SamplePoint F) (s : HitSampleInfo) (n : HitSa
   by_cases h1 : s.customSampleBank = 0 <;> by_cases h2 : s.volume = 0 <;> by_cases h3 : s.bankSpecified = true <;>
     by_cases h4 : sp.customSampleBank ≥ 2 <;> simp [h1, h2, h3, h4, hn]
 
+omit [Trig F] in
 /-- file samples get the fixed treatment. -/
 theorem apply_file_sample (sp : SamplePoint F) (s : HitSampleInfo) (f : Str) (hn : s.name = .file f) :
     sp.apply s = { s with bank := SampleBank.normal, suffix := none,
